@@ -316,7 +316,8 @@ def f4_metadata(check, prog):
     res = it.analyze(q)
     sets = {e['attr']: e['value'] for e in it.effects if e['kind'] == 'setattr'
             and e['func'] == q}
-    ok = sets.get('attrs') == ('attr', sym('old'), 'attrs') and \
+    ok = sets.get('attrs') in (('attr', sym('old'), 'attrs'),
+                               ('copy', 'shallow', ('attr', sym('old'), 'attrs'))) and \
         sets.get('name') == ('attr', sym('old'), 'name')
     check.require(ok, 'F4-copy-metadata', 'copy_metadata',
                   'new.attrs = old.attrs and new.name = old.name', prog.loc(q, fd),
